@@ -375,32 +375,39 @@ Definition s_trailers : list N := [116;114;97;105;108;101;114;115].
 Record lit_state := {
   lt_fields : list (list N * list N);   (* HeaderMap contents, in insertion order *)
   lt_field_size : N;                    (* HeaderBlock::field_size *)
-  lt_over : bool }.                     (* HeaderBlock::is_over_size *)
+  lt_over : bool;                       (* HeaderBlock::is_over_size *)
+  lt_malformed : bool }.                (* HeaderBlock::is_malformed: outlives one call of load *)
 
-Definition lit_empty : lit_state := {| lt_fields := []; lt_field_size := 0; lt_over := false |}.
+Definition lit_empty : lit_state :=
+  {| lt_fields := []; lt_field_size := 0; lt_over := false; lt_malformed := false |}.
+
+(* `self.is_malformed = malformed;` right after Decoder::decode returns, whatever it returned *)
+Definition lit_store (st : lit_state) (malformed : bool) : lit_state :=
+  {| lt_fields := lt_fields st; lt_field_size := lt_field_size st; lt_over := lt_over st;
+     lt_malformed := malformed |}.
 
 (* the closure passed to Decoder::decode plus the loop around it *)
 Fixpoint lit_loop (fuel : nat) (max_hls : N) (st : lit_state) (headers_size : N) (malformed : bool)
          (buf : list N) : hp_outcome * list N * lit_state :=
   match fuel with
-  | O => (HpUnsupported, buf, st)
+  | O => (HpUnsupported, buf, lit_store st malformed)
   | S fuel' =>
       match buf with
-      | [] => (if malformed then HpMalformed else HpOk, [], st)
+      | [] => (if malformed then HpMalformed else HpOk, [], lit_store st malformed)
       | b :: after_type =>
-          if negb ((b =? 0) || (b =? 16)) then (HpUnsupported, buf, st) else
+          if negb ((b =? 0) || (b =? 16)) then (HpUnsupported, buf, lit_store st malformed) else
           match decode_str after_type with
-          | StrNeedMore => (HpNeedMore, buf, st)
-          | StrOverflow => (HpOther, buf, st)
-          | StrHuffman => (HpUnsupported, buf, st)
+          | StrNeedMore => (HpNeedMore, buf, lit_store st malformed)
+          | StrOverflow => (HpOther, buf, lit_store st malformed)
+          | StrHuffman => (HpUnsupported, buf, lit_store st malformed)
           | StrOk name after_name =>
               match decode_str after_name with
-              | StrNeedMore => (HpNeedMore, buf, st)
-              | StrOverflow => (HpOther, buf, st)
-              | StrHuffman => (HpUnsupported, buf, st)
+              | StrNeedMore => (HpNeedMore, buf, lit_store st malformed)
+              | StrOverflow => (HpOther, buf, lit_store st malformed)
+              | StrHuffman => (HpUnsupported, buf, lit_store st malformed)
               | StrOk value rest =>
                   if negb (forallb name_char_ok name && negb (lenN name =? 0) && forallb value_char_ok value)
-                  then (HpUnsupported, buf, st) else
+                  then (HpUnsupported, buf, lit_store st malformed) else
                   if list_N_eqb name s_connection || list_N_eqb name s_transfer_encoding
                      || list_N_eqb name s_upgrade || list_N_eqb name s_keep_alive
                      || list_N_eqb name s_proxy_connection
@@ -410,13 +417,15 @@ Fixpoint lit_loop (fuel : nat) (max_hls : N) (st : lit_state) (headers_size : N)
                     let header_size := lenN name + lenN value + 32 in
                     let headers_size' := headers_size + header_size in
                     if N.min (max_hls * MAX_HEADER_LIST_ABUSE_MULTIPLIER) usize_max <? headers_size'
-                    then (HpWayTooLarge, rest, st)          (* ControlFlow::Break after consume() *)
+                    then (HpWayTooLarge, rest, lit_store st malformed)   (* ControlFlow::Break after consume() *)
                     else
                       let over := lt_over st || (max_hls <=? headers_size') in
                       let st' :=
-                        if over then {| lt_fields := lt_fields st; lt_field_size := lt_field_size st; lt_over := true |}
+                        if over then {| lt_fields := lt_fields st; lt_field_size := lt_field_size st; lt_over := true;
+                                        lt_malformed := lt_malformed st |}
                         else {| lt_fields := lt_fields st ++ [(name, value)];
-                                lt_field_size := lt_field_size st + header_size; lt_over := false |} in
+                                lt_field_size := lt_field_size st + header_size; lt_over := false;
+                                lt_malformed := lt_malformed st |} in
                       lit_loop fuel' max_hls st' headers_size' malformed rest
               end
           end
@@ -425,7 +434,7 @@ Fixpoint lit_loop (fuel : nat) (max_hls : N) (st : lit_state) (headers_size : N)
 
 Definition hp_lit : hpack_ops lit_state :=
   {| hp_begin := fun _ => lit_empty;
-     hp_load := fun max_hls st buf => lit_loop (S (length buf)) max_hls st (lt_field_size st) false buf;
+     hp_load := fun max_hls st buf => lit_loop (S (length buf)) max_hls st (lt_field_size st) (lt_malformed st) buf;
      hp_over := lt_over |}.
 
 (* ---------------------------------------------------------------------------------------- *)
